@@ -1,6 +1,7 @@
 import SedpackProofs.TreeEnum
 import SedpackProofs.Crash
 import SedpackProofs.TreeCrash
+import SedpackProofs.TreeCrashRefine
 import SedpackProps.C08
 /-!
 # C06 ↔ M-TREE: the merge of the code-shaped model obeys M-CRASH's install discipline
@@ -100,6 +101,74 @@ theorem C06_crash_point_keeps_list_order (H : SList → Nat) (B fuel : Nat) (hfu
     filesAt ds.fs x <+: filesAt (applyInstalls ds.fs ((sessionE H fuel ds se).2.take k)) x := by
   obtain ⟨_, _, hv⟩ := sessionE_spec H B fuel hfuel hB ds se hse hi
   exact (valid_sinv_mono B _ _ (valid_take B _ _ k hv).1 hi).2.files x
+
+/-- **The code-shaped model refines M-CRASH.**  Read as M-CRASH `install` labels, the documents a writing call installs are
+accepted by M-CRASH from the abstraction of the dataset it continues — every guard of `Crash.step` (listed shards closed,
+children installed first and exactly one level deeper, documents only grow) holds at every step — provided the shard files the
+final lists name are closed (`C`: the filler lists a shard only after `Shard.close()` returned, `C06_src_closed_before_listed`).
+Hence every theorem of `C06.lean` about reachable M-CRASH states applies to every crash point of the code-shaped model. -/
+theorem C06_code_shaped_trace_accepted_by_M_CRASH (H : SList → Nat) (B fuel : Nat) (hfuel : B < fuel + 1) (hB : 1 ≤ B) (ds : DS)
+    (fl : List Session) (hse : ∀ w ∈ fl.flatten, w.1 ≠ [] ∧ w.1.length ≤ B) (hi : SInv B ds.fs) (C : List Nat) (R : List Dir)
+    (hC : ∀ x, ∀ sh ∈ filesAt (session H fuel ds fl.flatten).fs x, sh.file ∈ C) :
+    Crash.accepts (absSt ds.fs C R) ((multiSessionE H fuel ds fl).2.map toLbl) =
+      some (absSt (session H fuel ds fl.flatten).fs C R) := by
+  obtain ⟨_, hst, hv⟩ := multiSessionE_spec H B fuel hfuel hB ds fl hse hi
+  rw [hst]
+  apply valid_accepted B C R _ _ hv
+  intro i him f hf
+  have := (valid_files_le_final B _ _ hv hi i him).subset hf
+  rw [← hst] at this
+  exact hC i.1 f this
+
+theorem mergeSplits_splits_mono (H : SList → Nat) (fuel : Nat) (dirs : List Dir) : ∀ (ss : List Nat) (ds : DS) (s : Nat),
+    ds.splits s ≠ none → (mergeSplits H fuel dirs ss ds).splits s ≠ none := by
+  intro ss
+  induction ss with
+  | nil => intro ds s h; exact h
+  | cons a rest ih =>
+    intro ds s h
+    simp only [mergeSplits]
+    apply ih
+    by_cases hs : s = a
+    · simp [hs]
+    · simpa [hs] using h
+
+/-- the roots the description names, for the splits `ss` -/
+def rootsOf (ds : DS) (ss : List Nat) : List Dir := ss.filterMap (fun s => (ds.splits s).map (·.dir))
+
+/-- **… and the description last**: after the call's list installs, replacing `dataset_info.json` by the new split table is
+accepted by M-CRASH as well: every root it names is installed, and no split of the old description is dropped. -/
+theorem C06_description_install_accepted (H : SList → Nat) (B fuel : Nat) (hfuel : B < fuel + 1) (hB : 1 ≤ B) (ds : DS)
+    (se : Session) (hse : ∀ w ∈ se, w.1 ≠ [] ∧ w.1.length ≤ B) (hg : Good H B ds) (C : List Nat) (ss : List Nat) :
+    Crash.step (absSt (session H fuel ds se).fs C (rootsOf ds ss)) (.installInfo (rootsOf (session H fuel ds se) ss)) =
+      some (absSt (session H fuel ds se).fs C (rootsOf (session H fuel ds se) ss)) := by
+  obtain ⟨hgood, _⟩ := session_good H B fuel hfuel hB ds se hse hg
+  have h1 : (rootsOf (session H fuel ds se) ss).all (fun r => (((session H fuel ds se).fs r).map toDoc).isSome) = true := by
+    simp only [rootsOf, List.all_eq_true, List.mem_filterMap]
+    rintro r ⟨s, _, hr⟩
+    cases hsp : (session H fuel ds se).splits s with
+    | none => simp [hsp] at hr
+    | some k =>
+      simp [hsp] at hr; subst hr
+      obtain ⟨_, hex⟩ := hgood.exact s k hsp
+      cases hex with
+      | @mk _ l hget _ _ _ _ _ => simp [hget]
+  have h2 : Crash.sub (rootsOf ds ss) (rootsOf (session H fuel ds se) ss) = true := by
+    simp only [Crash.sub, rootsOf, List.all_eq_true, List.contains_iff_mem, List.mem_filterMap]
+    rintro r ⟨s, hs, hr⟩
+    cases hsp : ds.splits s with
+    | none => simp [hsp] at hr
+    | some k =>
+      simp [hsp] at hr; subst hr
+      have hne : (session H fuel ds se).splits s ≠ none := by
+        simp only [session]
+        exact mergeSplits_splits_mono H fuel _ _ _ s (by simp [hsp])
+      cases hsp' : (session H fuel ds se).splits s with
+      | none => exact absurd hsp' hne
+      | some k' =>
+        refine ⟨s, hs, ?_⟩
+        rw [hsp', Option.map_some, (hgood.exact s k' hsp').1, (hg.exact s k hsp).1]
+  simp only [Crash.step, absSt, h1, h2, and_self, if_true]
 
 /-- `SInv` is an invariant of every history, starting from the empty dataset -/
 theorem C06_history_sinv (H : SList → Nat) (B fuel : Nat) (hfuel : B < fuel + 1) (hB : 1 ≤ B) :
